@@ -80,6 +80,8 @@ static void dist_open(void)
 	f_ops = xfopen(b, "w");
 	snprintf(b, sizeof b, "%s.%d", c_path, (int)nid);
 	f_c = xfopen(b, "w");
+	setvbuf(f_ops, NULL, _IOLBF, 0); /* a rank killed by the watchdog must leave complete lines */
+	setvbuf(f_c, NULL, _IOLBF, 0);
 	vrng_state ^= 0x9e3779b97f4a7c15ULL * (uint64_t)(nid + 1); /* a different schedule on every rank */
 }
 #define OP(...) ((void)(f_ops || (dist_open(), 1)), fprintf(f_ops, __VA_ARGS__), fputc('\n', f_ops), n_lines++)
@@ -526,6 +528,8 @@ int main(int argc, char **argv)
 	    .committed = gm_can_end};
 	if(RootsimInit(&conf))
 		return 2;
+	if(mode_dist)
+		vs_budget = argu(argc, argv, "budget", UINT64_MAX / 2); /* ranks wait for each other: wall-clock watchdog instead */
 	if(mode_par || mode_dist) {
 		vs_on_hang = on_hang;
 		vs_init((int)threads);
